@@ -13,7 +13,7 @@ from .. import gen, runner
 from .common import CapSim, guarded, Summary
 
 INF = float('inf')
-BUDGET = {'quick': 200, 'thorough': 6000}
+BUDGET = {'quick': 320, 'thorough': 8000}
 
 
 def ps_oracle(arrivals, cap, R):
